@@ -105,6 +105,12 @@ pub struct MockDb<T> {
     _p: PhantomData<T>,
 }
 
+impl<T> MockDb<T> {
+    pub fn new_raw(shared: Arc<Mutex<Shared>>, id: usize) -> Self {
+        MockDb { shared, id, calls: 0, engine_name: String::new(), _p: PhantomData }
+    }
+}
+
 pub fn types_of<T: ColumnType>(s: &str) -> Vec<T> {
     s.chars().filter_map(|c| T::from_char(c)).collect()
 }
